@@ -299,8 +299,10 @@ void AbstractDiscreteDistribution::discretizeEqualProportions()
      category
    */
 
-  distribution_.clear();
-  bounds_.resize(numberOfCategories_ - 1);
+  // The new classes are built aside and installed at the end: when a parent function or the
+  // separation of the values below raises, the object keeps its previous classes.
+  map<double, double, Order> newDistribution(distribution_.key_comp());
+  vector<double> newBounds(numberOfCategories_ - 1);
 
   double minX = pProb(intMinMax_->getLowerBound());
   double maxX = pProb(intMinMax_->getUpperBound());
@@ -315,7 +317,7 @@ void AbstractDiscreteDistribution::discretizeEqualProportions()
     ec = (maxX - minX) / static_cast<double>(numberOfCategories_);
     for (i = 1; i < numberOfCategories_; i++)
     {
-      bounds_[i - 1] = qProb(minX + static_cast<double>(i) * ec);
+      newBounds[i - 1] = qProb(minX + static_cast<double>(i) * ec);
     }
 
     // for each category, sets the value v as the median, adjusted
@@ -349,7 +351,7 @@ void AbstractDiscreteDistribution::discretizeEqualProportions()
       double a = Expectation(firstBound), b;
       for (i = 0; i < numberOfCategories_ - 1; i++)
       {
-        secondBound = bounds_[i];
+        secondBound = newBounds[i];
         b = Expectation(secondBound);
         values[i] = (b - a) / ec;
         if (values[i] < firstBound || values[i] > secondBound)   // May happen if the two bounds are undistinguishable.
@@ -373,7 +375,7 @@ void AbstractDiscreteDistribution::discretizeEqualProportions()
     ec = (intMinMax_->getUpperBound() - intMinMax_->getLowerBound()) / static_cast<double>(numberOfCategories_);
     for (i = 1; i < numberOfCategories_; i++)
     {
-      bounds_[i - 1] = intMinMax_->getLowerBound() + static_cast<double>(i) * ec;
+      newBounds[i - 1] = intMinMax_->getLowerBound() + static_cast<double>(i) * ec;
     }
 
     // midpoints; the last class ends at the upper bound of the domain (and with a
@@ -381,7 +383,7 @@ void AbstractDiscreteDistribution::discretizeEqualProportions()
     double previousBound = intMinMax_->getLowerBound();
     for (i = 0; i < numberOfCategories_; i++)
     {
-      double nextBound = (i + 1 < numberOfCategories_) ? bounds_[i] : intMinMax_->getUpperBound();
+      double nextBound = (i + 1 < numberOfCategories_) ? newBounds[i] : intMinMax_->getUpperBound();
       values[i] = (previousBound + nextBound) / 2;
       previousBound = nextBound;
     }
@@ -430,18 +432,18 @@ void AbstractDiscreteDistribution::discretizeEqualProportions()
     }
   }
 
-  // now the distribution_ map, taking care that all values are different
+  // now the distribution map, taking care that all values are different
 
   double p = 1. / static_cast<double>(numberOfCategories_);
   for (i = 0; i < numberOfCategories_; i++)
   {
     if (!std::isfinite(values[i]))
       throw Exception("AbstractDiscreteDistribution::discretizeEqualProportions. A class value is not a finite number.");
-    if (distribution_.find(values[i]) != distribution_.end())
+    if (newDistribution.find(values[i]) != newDistribution.end())
     {
       int j = 1;
       int f = ((values[i] + NumConstants::TINY()) >= intMinMax_->getUpperBound()) ? -1 : 1;
-      while (distribution_.find(values[i] + f * j * precision()) != distribution_.end())
+      while (newDistribution.find(values[i] + f * j * precision()) != newDistribution.end())
       {
         // A step of the precision may be far below the spacing of the doubles around the value
         // (precision 1e-20 next to 1: some 1e4 steps per double), but when no free key has been
@@ -451,11 +453,14 @@ void AbstractDiscreteDistribution::discretizeEqualProportions()
         j++;
         f = ((values[i] + f * j * precision()) >= intMinMax_->getUpperBound()) ? -1 : 1;
       }
-      distribution_[values[i] + f * j * precision()] = p;
+      newDistribution[values[i] + f * j * precision()] = p;
     }
     else
-      distribution_[values[i]] = p;
+      newDistribution[values[i]] = p;
   }
+
+  distribution_.swap(newDistribution);
+  bounds_.swap(newBounds);
 
   return;
 }
@@ -467,8 +472,10 @@ void AbstractDiscreteDistribution::discretizeEqualIntervals()
   /* discretization of distribution with equal intervals
    */
 
-  distribution_.clear();
-  bounds_.resize(numberOfCategories_ - 1);
+  // The new classes are built aside and installed at the end: when a parent function or the
+  // separation of the values below raises, the object keeps its previous classes.
+  map<double, double, Order> newDistribution(distribution_.key_comp());
+  vector<double> newBounds(numberOfCategories_ - 1);
   vector<double> values(numberOfCategories_);
 
   double lowerBound = intMinMax_->getLowerBound();
@@ -479,7 +486,7 @@ void AbstractDiscreteDistribution::discretizeEqualIntervals()
   // Compute bounds:
   for (size_t i = 0; i < numberOfCategories_ - 1; ++i)
   {
-    bounds_[i] = lowerBound + (static_cast<double>(i) + 1.) * interval;
+    newBounds[i] = lowerBound + (static_cast<double>(i) + 1.) * interval;
   }
 
   // Compute values:
@@ -489,13 +496,16 @@ void AbstractDiscreteDistribution::discretizeEqualIntervals()
   }
 
   // Compute proportions:
-  deque<double> allBounds(bounds_.begin(), bounds_.end());
+  deque<double> allBounds(newBounds.begin(), newBounds.end());
   allBounds.push_front(lowerBound);
   allBounds.push_back(upperBound);
   for (size_t i = 0; i < numberOfCategories_; ++i)
   {
-    distribution_[values[i]] = (pProb(allBounds[i + 1]) - pProb(allBounds[i])) / condProb;
+    newDistribution[values[i]] = (pProb(allBounds[i + 1]) - pProb(allBounds[i])) / condProb;
   }
+
+  distribution_.swap(newDistribution);
+  bounds_.swap(newBounds);
 
   return;
 }
